@@ -153,7 +153,7 @@ def spec_check(ck, c, g, d, conn, tag="grid", mconn=None, report=True, check_rin
             fail("corners", "dual face %d (node %d): corners %r, faces at the node %r" % (k, v, ring, sorted(inc[v])),
                  {"valence": len(inc[v])}, k=k)
             continue
-        if check_ring and c["closed"] and c.get("ccw_ok"):
+        if check_ring and c.get("ccw_ok") and (c["closed"] or (c.get("interior") and c["interior"][v])):
             kk = len(ring)
             fwd = all(prv(faces[ring[i]], v) == nxt(faces[ring[(i + 1) % kk]], v) for i in range(kk))
             if not fwd:
@@ -550,6 +550,24 @@ def gen_history(rng):
     return h
 
 
+def degenerate_centres(c, g, tol=1e-9):
+    P = np.stack([g.node_x.values, g.node_y.values, g.node_z.values], axis=1)
+    lo, la = np.radians(np.asarray(g.face_lon.values)), np.radians(np.asarray(g.face_lat.values))
+    C = np.stack([np.cos(la) * np.cos(lo), np.cos(la) * np.sin(lo), np.sin(la)], axis=1)
+    X = np.stack([g.face_x.values, g.face_y.values, g.face_z.values], axis=1)
+    faces = [real(r) for r in c["table"]]
+    for CC in (C, X):
+        for fi, f in enumerate(faces):
+            if np.min(np.linalg.norm(P[f] - CC[fi], axis=1)) < tol:
+                return True
+        for fs in incident(faces, c["n_node"]):
+            for i in range(len(fs)):
+                for j in range(i + 1, len(fs)):
+                    if np.linalg.norm(CC[fs[i]] - CC[fs[j]]) < tol:
+                        return True
+    return False
+
+
 def run_history(ck, c, hist, stats=None):
     """every get_dual of the history must satisfy count / corners / padding and put dual node i at the CURRENT centre
     (Grid.face_lon / face_lat at the time of the call) of primal face i"""
@@ -566,6 +584,12 @@ def run_history(ck, c, hist, stats=None):
             if not (np.all(np.isfinite(cur_lon)) and np.all(np.isfinite(cur_lat))):
                 if stats is not None:
                     stats["stopped_nonfinite_centres"] = stats.get("stopped_nonfinite_centres", 0) + 1
+                return
+            if any(x in ("centers_welzl", "set_face_lonlat", "set_face_xyz") for x in hist[:step]) and degenerate_centres(c, g):
+                # redefined centres that coincide with a corner node of their face or with each other (Welzl centres of
+                # faces with a straight corner do): the dual would have zero-length chords / duplicate nodes
+                if stats is not None:
+                    stats["stopped_degenerate_centres"] = stats.get("stopped_degenerate_centres", 0) + 1
                 return
             try:
                 with warnings.catch_warnings():
@@ -691,9 +715,74 @@ def fan_mesh(rng):
     return meshgen.Mesh(nodes, faces, True, "fan%d" % k)
 
 
+def fine_patch(rng):
+    """uniformly fine regional patch: (nx x ny) jittered lon/lat lattice with spacing 1e-4..1e-2 degrees anywhere on the
+    sphere (also across the antimeridian / next to a pole), quads and triangles mixed"""
+    nx, ny = rng.randrange(4, 8), rng.randrange(4, 8)
+    h = 10.0 ** rng.uniform(-4, -2)
+    lon0 = rng.choice([rng.uniform(-180, 180), 180.0 - h * nx / 2, 0.0, -180.0 + h])
+    lat0 = rng.choice([rng.uniform(-80, 80), 0.0, 89.0, -60.0])
+    nodes, ids = [], {}
+    for j in range(ny):
+        for i in range(nx):
+            lo = math.radians(lon0 + h * (i + rng.uniform(-0.15, 0.15)))
+            la = math.radians(lat0 + h * (j + rng.uniform(-0.15, 0.15)))
+            ids[(i, j)] = len(nodes)
+            nodes.append((math.cos(la) * math.cos(lo), math.cos(la) * math.sin(lo), math.sin(la)))
+    faces = []
+    for j in range(ny - 1):
+        for i in range(nx - 1):
+            q = [ids[(i, j)], ids[(i + 1, j)], ids[(i + 1, j + 1)], ids[(i, j + 1)]]
+            r = rng.random()
+            if r < 0.3:
+                faces += [[q[0], q[1], q[2]], [q[0], q[2], q[3]]]
+            elif r < 0.6:
+                faces += [[q[0], q[1], q[3]], [q[1], q[2], q[3]]]
+            else:
+                faces.append(q)
+    return meshgen.Mesh(nodes, faces, False, "finepatch%dx%d,h=%.1e" % (nx, ny, h))
+
+
+def refined_spot(rng):
+    """closed lon/lat sphere (pole triangles + quads, a node on each pole) whose meridians and parallels are clustered
+    around one point so that the cells there are 1e-4..1e-2 degrees"""
+    h = 10.0 ** rng.uniform(-4, -2)
+    lon0, lat0 = rng.uniform(-180, 180), rng.uniform(-50, 50)
+    kl, kb = rng.randrange(2, 5), rng.randrange(2, 5)
+    lons = sorted({(lon0 + 90.0 * k + 180.0) % 360.0 - 180.0 for k in range(1, 4)} |
+                  {(lon0 + h * (k - (kl - 1) / 2) + 180.0) % 360.0 - 180.0 for k in range(kl)})
+    lats = sorted({-60.0, 65.0} | ({lat0 - 35.0} if lat0 > -20 else set()) | ({lat0 + 30.0} if lat0 < 30 else set()) |
+                  {lat0 + h * (k - (kb - 1) / 2) for k in range(kb)})
+    # order the meridians eastward starting anywhere (cyclic)
+    nl = len(lons)
+    nodes = [(0.0, 0.0, -1.0)]
+    ids = {}
+    for j, la in enumerate(lats):
+        for i, lo in enumerate(lons):
+            a, b = math.radians(la), math.radians(lo)
+            ids[(i, j)] = len(nodes)
+            nodes.append((math.cos(a) * math.cos(b), math.cos(a) * math.sin(b), math.sin(a)))
+    north = len(nodes)
+    nodes.append((0.0, 0.0, 1.0))
+    faces = []
+    for i in range(nl):
+        i2 = (i + 1) % nl
+        faces.append([0, ids[(i2, 0)], ids[(i, 0)]])
+        for j in range(len(lats) - 1):
+            faces.append([ids[(i, j)], ids[(i2, j)], ids[(i2, j + 1)], ids[(i, j + 1)]])
+        faces.append([north, ids[(i, len(lats) - 1)], ids[(i2, len(lats) - 1)]])
+    return meshgen.Mesh(nodes, faces, True, "refinedspot,h=%.1e" % h)
+
+
 def gen_case(rng, tier, kind):
     for _ in range(200):
-        if kind == "fan":
+        if kind in ("finepatch", "refinedspot"):
+            m = fine_patch(rng) if kind == "finepatch" else refined_spot(rng)
+            if kind == "refinedspot" and rng.random() < 0.5:
+                meshgen.rotate(m, meshgen.rotation_matrix(rng, "random"))
+            meshgen.renumber(m, rng)
+            meshgen.rotate_starts(m, rng)
+        elif kind == "fan":
             m = fan_mesh(rng)
             meshgen.rotate(m, meshgen.rotation_matrix(rng))
             meshgen.renumber(m, rng)
@@ -755,8 +844,8 @@ def gen_cases(ck):
             c = json.load(open(os.path.join(cdir, fn)))
             c["kind"] = "corpus"
             cases.append(c)
-    plan = [("fan", 20 if quick else 300), ("poly", 30 if quick else 100), ("closed", 110 if quick else 2400), ("refined", 20 if quick else 300),
-            ("antimeridian", 30 if quick else 600), ("partial", 80 if quick else 1900)]
+    plan = [("finepatch", 25 if quick else 300), ("refinedspot", 20 if quick else 250), ("fan", 20 if quick else 300), ("poly", 30 if quick else 100), ("closed", 95 if quick else 2200), ("refined", 20 if quick else 300),
+            ("antimeridian", 30 if quick else 600), ("partial", 70 if quick else 1700)]
     for kind, n in plan:
         for _ in range(n):
             cases.append(gen_case(rng, ck.tier, kind))
@@ -851,6 +940,18 @@ def prepare(c):
     de = [(f[i], f[(i + 1) % len(f)]) for f in faces for i in range(len(f))]
     c["ccw_ok"] = len(set(de)) == len(de) and faces_ccw_exact(nodes_q, faces)
     c["convex"] = [face_convex(c["nodes"], f) for f in faces]
+    # nodes whose faces form a closed umbrella (every edge at the node has two faces): there the ring clause is as
+    # meaningful on a partial grid as on a closed one
+    cnt = {}
+    for f in faces:
+        for i in range(len(f)):
+            a, b = f[i], f[(i + 1) % len(f)]
+            cnt[(min(a, b), max(a, b))] = cnt.get((min(a, b), max(a, b)), 0) + 1
+    interior = [True] * c["n_node"]
+    for (a, b), k in cnt.items():
+        if k != 2:
+            interior[a] = interior[b] = False
+    c["interior"] = interior
 
 
 def model_line(c, g):
@@ -910,7 +1011,8 @@ def main(ck):
     cases = gen_cases(ck)
     tm["generate"] = round(time.time() - t0, 1)
     t0 = time.time()
-    ck.cov["rule"] = ("corpus + bipyramids with very uneven faces + 9 seed polyhedra + closed sphere tilings grown by split/subdivide/stellate/dual "
+    ck.cov["rule"] = ("corpus + uniformly fine regional patches (cells 1e-4..1e-2 degrees, also across the antimeridian / next to a pole) "
+                      "+ closed lon/lat spheres with a locally refined spot (cells down to 1e-4 degrees) + bipyramids with very uneven faces + 9 seed polyhedra + closed sphere tilings grown by split/subdivide/stellate/dual "
                       "(meshgen), refined tilings (2-3 rounds of stellation with random triangle pairs merged into "
                       "quads), tilings with a node exactly on the antimeridian / on a pole, partial grids by face "
                       "deletion; all renumbered, random start corner, random rigid rotation; data arrays of rank 1-3 with the grid "
@@ -974,12 +1076,12 @@ def main(ck):
         if res is None or len(c["table"]) > 400:
             continue
         r = ck.rng.random()
-        if r < (0.3 if ck.tier == "quick" else 0.1):
+        if r < (0.2 if ck.tier == "quick" else 0.1):
             try:
                 d1 = build_grid(c).get_dual()        # a dual nothing has been derived on yet
             except Exception:
                 continue
-            if r < (0.1 if ck.tier == "quick" else 0.04) or (not c["closed"] and r < (0.2 if ck.tier == "quick" else 0.07)):
+            if r < (0.07 if ck.tier == "quick" else 0.04) or (not c["closed"] and r < (0.12 if ck.tier == "quick" else 0.07)):
                 iterate_duals(ck, c, d1, ok, levels=2, stats=self_stats, rng=ck.rng)
             check_consistency(ck, c, d1, ck.rng, stats=self_stats)
     tm["dual_as_grid"] = round(time.time() - t0, 1)
@@ -1042,7 +1144,9 @@ def main(ck):
     n_nojit = 0
     sample = [(c, r) for c, r in zip(cases, results) if r is not None and len(c["table"]) <= 40]
     step = max(1, len(sample) // (12 if ck.tier == "quick" else 60))
-    sample = sample[::step][: (12 if ck.tier == "quick" else 60)]
+    small = [(c, r) for c, r in zip(cases, results) if r is not None and c["kind"] in ("finepatch", "refinedspot")
+             and len(c["table"]) <= 80]
+    sample = small[: (6 if ck.tier == "quick" else 30)] + sample[::step][: (10 if ck.tier == "quick" else 50)]
     if sample:
         try:
             outs = run_nojit([c for c, _ in sample])
